@@ -239,9 +239,11 @@ func (it *Iterator) Value() []byte {
 	return it.currentVal
 }
 
-// Valid returns true if the iterator is positioned at a valid entry
+// Valid returns true if the iterator is positioned at a valid entry.
+// A decoded key is never nil (the decoder allocates it, also for the empty key, which is a
+// legal key and always the first entry of its table); nil means "not positioned".
 func (it *Iterator) Valid() bool {
-	return it.currentKey != nil && len(it.currentKey) > 0
+	return it.currentKey != nil
 }
 
 // IsTombstone returns true if the current entry is a deletion marker
